@@ -185,4 +185,6 @@ def fs_setup(dest_expr=None):
     st.ghost['fs'] = ex.make_input(st, 'fs', 'dict[str,str]')
     st.ghost['complete'] = ex.make_input(st, 'complete', 'str')
     st.ghost['dest'] = ex.make_input(st, 'dest', 'str')
+    if ex.unit_contract is not None:
+      ex.unit_contract.ghost_const.update(['complete', 'dest'])      # specification inputs: nothing changes them
   return setup
